@@ -8,4 +8,4 @@ fi
 export GOLIBCHECK_EVIDENCE_DIR=$(mktemp -d /tmp/mutev.XXXXXX)
 for pr in "$@"; do /verif/bin/golibcheck -prop $pr 2>&1 | grep "VIOLATION rule\|UNDECIDED\|CHECKER" | cut -c1-300; done
 rm -rf "$GOLIBCHECK_EVIDENCE_DIR"
-git reset -q --hard HEAD
+git reset -q --hard HEAD; git clean -fdq -e logger/logfile/logs
